@@ -3,6 +3,7 @@ package rules
 import (
 	"fmt"
 	"go/token"
+	"go/types"
 	"sort"
 	"strings"
 
@@ -48,6 +49,9 @@ type deepView struct {
 	// stopAt: callees whose results resolve() keeps symbolic (the rule wants to
 	// see the call itself); their frames are still part of the view
 	stopAt map[string]bool
+	// idxEnv: while an unrolled item of a range-over-literal loop is evaluated,
+	// the loop's index value stands for this constant
+	idxEnv map[ssa.Value]int64
 }
 
 type dinstr struct {
@@ -219,6 +223,14 @@ func (d *deepView) resolve(v ssa.Value, fr *frame) dval {
 			if x.Op != token.MUL {
 				return dval{v, fr}
 			}
+			// element of a local array / slice literal at a known index
+			if ia, isIA := x.X.(*ssa.IndexAddr); isIA {
+				if el, ok := d.literalElem(ia, fr); ok {
+					v, fr = el.v, el.fr
+					continue
+				}
+				return dval{v, fr}
+			}
 			// load of a single-assignment local cell
 			cellD := d.resolve(x.X, fr)
 			a, ok := cellD.v.(*ssa.Alloc)
@@ -273,6 +285,95 @@ func (d *deepView) resolve(v ssa.Value, fr *frame) dval {
 	return dval{v, fr}
 }
 
+// indexOf: the constant an index expression denotes (directly or under idxEnv).
+func (d *deepView) indexOf(v ssa.Value) (int64, bool) {
+	if k, ok := ir.ConstInt(v); ok {
+		return k, true
+	}
+	k, ok := d.idxEnv[v]
+	return k, ok
+}
+
+// literalArray: the local array behind a slice-literal value.
+func (d *deepView) literalArray(v ssa.Value, fr *frame) (*ssa.Alloc, *frame, bool) {
+	r := d.resolve(v, fr)
+	x := r.v
+	if sl, ok := x.(*ssa.Slice); ok {
+		x = sl.X
+	}
+	a, ok := x.(*ssa.Alloc)
+	if !ok {
+		return nil, nil, false
+	}
+	if _, isArr := a.Type().Underlying().(*types.Pointer).Elem().Underlying().(*types.Array); !isArr {
+		return nil, nil, false
+	}
+	return a, r.fr, true
+}
+
+// literalElem: the value stored at a known index of a local array literal.
+func (d *deepView) literalElem(ia *ssa.IndexAddr, fr *frame) (dval, bool) {
+	k, ok := d.indexOf(ia.Index)
+	if !ok {
+		return dval{}, false
+	}
+	a, afr, ok := d.literalArray(ia.X, fr)
+	if !ok {
+		return dval{}, false
+	}
+	var out ssa.Value
+	n := 0
+	for _, r := range *a.Referrers() {
+		if ia2, ok := r.(*ssa.IndexAddr); ok {
+			if k2, isK := ir.ConstInt(ia2.Index); isK && k2 == k {
+				for _, rr := range *ia2.Referrers() {
+					if st, ok := rr.(*ssa.Store); ok && st.Addr == ssa.Value(ia2) {
+						out, n = st.Val, n+1
+					}
+				}
+			}
+		}
+	}
+	if n != 1 {
+		return dval{}, false
+	}
+	return dval{out, afr}, true
+}
+
+// literalElemField: the value stored into field idx of the struct element at a
+// known index of a local array literal.
+func (d *deepView) literalElemField(ia *ssa.IndexAddr, fr *frame, idx int) (dval, bool) {
+	k, ok := d.indexOf(ia.Index)
+	if !ok {
+		return dval{}, false
+	}
+	a, afr, ok := d.literalArray(ia.X, fr)
+	if !ok {
+		return dval{}, false
+	}
+	var out ssa.Value
+	n := 0
+	for _, r := range *a.Referrers() {
+		if ia2, ok := r.(*ssa.IndexAddr); ok {
+			if k2, isK := ir.ConstInt(ia2.Index); isK && k2 == k {
+				for _, rr := range *ia2.Referrers() {
+					if fa, ok := rr.(*ssa.FieldAddr); ok && fa.Field == idx {
+						for _, r3 := range *fa.Referrers() {
+							if st, ok := r3.(*ssa.Store); ok && st.Addr == ssa.Value(fa) {
+								out, n = st.Val, n+1
+							}
+						}
+					}
+				}
+			}
+		}
+	}
+	if n != 1 {
+		return dval{}, false
+	}
+	return dval{out, afr}, true
+}
+
 // resolveConv resolves through frames and value-preserving conversions
 // alternately until nothing changes.
 func (d *deepView) resolveConv(v ssa.Value, fr *frame) dval {
@@ -290,13 +391,26 @@ func (d *deepView) resolveConv(v ssa.Value, fr *frame) dval {
 // uniqueResult: the one value fn returns at result index idx, ignoring returns
 // that yield a nil/zero constant there (the failure exits of (T, error) helpers).
 func uniqueResult(fn *ssa.Function, idx int) ssa.Value {
+	rets := ir.Returns(fn)
+	// for (..., error) functions only the success exits count, when they can be told apart
+	if res := fn.Signature.Results(); res.Len() > 1 && idx < res.Len()-1 && types.Identical(res.At(res.Len()-1).Type(), types.Universe.Lookup("error").Type()) {
+		var succ []*ssa.Return
+		for _, r := range rets {
+			if len(r.Results) == res.Len() && ir.IsNilConst(r.Results[res.Len()-1]) {
+				succ = append(succ, r)
+			}
+		}
+		if len(succ) > 0 {
+			rets = succ
+		}
+	}
 	var out ssa.Value
-	for _, r := range ir.Returns(fn) {
+	for _, r := range rets {
 		if idx >= len(r.Results) {
 			return nil
 		}
 		v := r.Results[idx]
-		if k, ok := v.(*ssa.Const); ok && (k.Value == nil || k.IsNil()) {
+		if k, ok := v.(*ssa.Const); ok && (k.Value == nil || k.IsNil()) && len(rets) > 1 {
 			continue
 		}
 		if out != nil && out != v {
